@@ -34,7 +34,8 @@ GChange == \E f \in File : \E t \in Variants(f, Len(hist) + 1) :
 \* the same text with the other layout: byte offsets and messages unchanged, line structure changed
 GRelayout == \E f \in File :
              /\ open[f] # None
-             /\ LET t == [open[f] EXCEPT !.lay = 1 - @] IN
+             /\ \E l \in {0, 1, 2} \ {open[f].lay} :          \* 2: the same statements one line further down (every offset moves)
+                LET t == [open[f] EXCEPT !.lay = l] IN
                 Change(f, t) /\ hist' = Append(hist, [ev |-> "Change", file |-> f, t |-> t])
 \* the editor closes a document and opens it again with the text it had (the server keeps the buffer of a closed document):
 \* nothing changes but the root
@@ -43,10 +44,14 @@ GReopen == \E f \in File :
              /\ Open(f, open[f]) /\ hist' = Append(hist, [ev |-> "Reopen", file |-> f, t |-> open[f]])
 \* the editor saves a document: nothing changes for the server (the buffer stays the source of truth, the disk of the model is
 \* left alone: the editor's write may not have happened yet)
+\* ... or with a text the editor has for it now (the file changed while it was closed)
+GReopenNew == \E f \in File : \E t \in Variants(f, Len(hist) + 1) :
+             /\ open[f] # None
+             /\ Open(f, t) /\ hist' = Append(hist, [ev |-> "Reopen", file |-> f, t |-> t])
 GSave == \E f \in File :
              /\ open[f] # None
              /\ UNCHANGED svars /\ hist' = Append(hist, [ev |-> "Save", file |-> f, t |-> open[f]])
-GNext == Len(hist) < MaxEvents /\ (GOpen \/ GChange \/ GRelayout \/ GReopen \/ GSave)
+GNext == Len(hist) < MaxEvents /\ (GOpen \/ GChange \/ GRelayout \/ GReopen \/ GReopenNew \/ GSave)
 GSpec == GInit /\ [][GNext]_gvars
 
 EmitSession == Len(hist) > 0 =>
